@@ -309,12 +309,12 @@ def samecmd_case(item):
         if variant == 'installs':
             # default.do serves the first target and leaves default.<ext>.do behind for everything that comes later
             common.write_file(posixpath.join(top, 'default.do'),
-                              'case "$1" in all) redo-ifchange %s %s; exit 0;; esac\n' % (first, second) +
-                              '[ -e %s ] || printf \'%%s\\n\' \'printf "%%s\\n" "ID=high" "A1=$1" "A2=$2" > "$3"\' > %s\n' % (hi, hi) + body % 'low')
+                              'case "$1" in all) redo-ifchange "%s" "%s"; exit 0;; esac\n' % (first, second) +
+                              '[ -e "%s" ] || printf \'%%s\\n\' \'printf "%%s\\n" "ID=high" "A1=$1" "A2=$2" > "$3"\' > "%s"\n' % (hi, hi) + body % 'low')
             want = {first: ('low', first, first), second: ('high', second, second[:-len(ext) - 1])}
         else:
-            common.write_file(posixpath.join(top, 'default.do'), 'case "$1" in all) redo-ifchange %s %s; exit 0;; esac\n' % (first, second) + body % 'low')
-            common.write_file(posixpath.join(top, hi), 'rm -f %s\n' % hi + body % 'high')
+            common.write_file(posixpath.join(top, 'default.do'), 'case "$1" in all) redo-ifchange "%s" "%s"; exit 0;; esac\n' % (first, second) + body % 'low')
+            common.write_file(posixpath.join(top, hi), 'rm -f "%s"\n' % hi + body % 'high')
             want = {first: ('high', first, first[:-len(ext) - 1]), second: ('low', second, second)}
         if how == 'ifchange':
             argv = ['redo-ifchange', first, second]
